@@ -7,7 +7,8 @@ EXTENDS Struct, Json, SequencesExt
 
 CONSTANTS MaxFields, Pairs   \* Pairs: emit two-field shapes too
 
-GoTypes == {"string", "*int", "[]uint8", "bool", "float64", "[]string", "*[]string", "time.Time", "*uint64"}
+GoTypes == {"string", "*int", "[]uint8", "bool", "float64", "[]string", "*[]string", "time.Time", "*uint64",
+            "named-int", "*named-string", "named-strings"}   \* user-defined types whose underlying type is supported
 JsonTags == {"a", "b", "", "id"}
 ApiTags == {"", "attr", "rel", "rel,", "rel,tt", "rel,tt,inv", "rel,a,b,c", "other", "rel,,inv"}
 IdVariants == {"ok", "noapi", "absent", "int", "jsonother", "nojson"}
